@@ -50,16 +50,21 @@ def _attach_sdo(node, drive):
     node.sdo.download = download
 
 
-def _attach_pdo(node, drive):
-    """controlword in RPDO1, statusword in TPDO1 (event driven: the drive answers every wait with
-    a fresh TPDO)"""
+def _attach_pdo(node, drive, event=False):
+    """controlword in RPDO1, statusword in TPDO1.  Synchronous TPDO (default): the library waits for a
+    reception and the drive answers every wait with a fresh TPDO.  event=True: event-driven TPDO
+    (transmission type 255): the drive sends one whenever its state changes; the library falls back to
+    SDO for check_statusword but decodes the state from the last received TPDO."""
     net = sx.mod("canopen.network").Network()
     sent = []
 
     def send(cid, data, remote=False):
         sent.append((cid, data))
         if cid == 0x203:
+            before = drive.state
             drive.write_controlword(sx.le_int(sx.items(data)[0:2]))
+            if event and drive.state != before:
+                net.notify(0x183, _le(drive.statusword(), 2), sx.env().now)
     net.send_message = send
     net.add_node(node)
     _attach_sdo(node, drive)
@@ -73,13 +78,25 @@ def _attach_pdo(node, drive):
     t.add_variable(0x6041)
     t.cob_id = 0x183
     t.enabled = True
-    t.trans_type = 1           # synchronous => "periodic": check_statusword waits for reception
+    t.trans_type = 255 if event else 1    # 1: synchronous => "periodic": check_statusword waits for reception
     node.setup_pdos(upload=False)
+    if event:
+        # automatic transitions are events too: the drive reports them when asked by SDO
+        orig = drive.statusword
 
-    def hook(kind, obj):
-        if kind == "condition":
-            net.notify(0x183, _le(drive.statusword(), 2), sx.env().now)
-    sx.env().delivery_hook = hook
+        def sdo_status():
+            before = drive.state
+            sw = orig()
+            if drive.state != before:
+                net.notify(0x183, _le(sw, 2), sx.env().now)
+            return sw
+        node.sdo.upload = lambda index, subindex, _u=node.sdo.upload: (_le(sdo_status(), 2) if index == 0x6041
+                                                                         else _u(index, subindex))
+    else:
+        def hook(kind, obj):
+            if kind == "condition":
+                net.notify(0x183, _le(drive.statusword(), 2), sx.env().now)
+        sx.env().delivery_hook = hook
     net.notify(0x183, _le(drive.statusword(), 2), 1.0)
     return net
 
@@ -110,7 +127,7 @@ def transition(initial, target, transport):
     if transport == "sdo":
         _attach_sdo(node, drive)
     else:
-        _attach_pdo(node, drive)
+        _attach_pdo(node, drive, event=(transport == "pdo-event"))
     n0 = len(drive.cw_writes)
     key = "C19/transition/%s->%s/%s" % (initial, target, transport)
     try:
@@ -226,6 +243,7 @@ def jobs(tier):
         for tgt in D.ALL_STATES:
             out.append(dict(func="transition", params=dict(initial=ini, target=tgt, transport="sdo"), weight=2))
             out.append(dict(func="transition", params=dict(initial=ini, target=tgt, transport="pdo"), weight=3))
+            out.append(dict(func="transition", params=dict(initial=ini, target=tgt, transport="pdo-event"), weight=3))
         for tgt in ("DISABLE VOLTAGE", "BOGUS"):
             out.append(dict(func="bad_target", params=dict(initial=ini, target=tgt)))
     for mode in D.MODES:
